@@ -9,7 +9,7 @@ CFG = dict(
               "filterAttr_rejects_non_point", "crop_wf", "removeNullFaces_wf",
               "splitOnMaterials_wf", "weld_wf", "repeatMesh_wf", "clearAttrs_wf", "setData_wf", "step_wf", "ops_closed", "ops_closed_transforms", "march_blocks_wf", "bowyerWatson_wf", "bowyerWatson_entry_wf", "constrainedBowyerWatson_wf",
               # round 2 (Props/C02More.lean, models Model/MeshMore.lean)
-              "scaleAlongNormal_wf", "scale2D_wf", "normalize2D_wf", "copyAttr_wf", "copyAttr_missing_wf", "scaleAlongNormalNode_total", "cropNode_wf"],
+              "scaleAlongNormal_wf", "scale2D_wf", "normalize2D_wf", "copyAttr_wf", "copyAttr_missing_wf", "scaleAlongNormalNode_total", "cropNode_wf", "thinNodes_wf"],
     # one-line instances / records: kernel-checked with the module, not counted as property obligations
     helper_theorems=["translate_wf", "scaleAbout_wf", "scaleMesh_wf", "rotate_wf", "applyTRS_wf", "center_wf", "normalize_wf", "smoothNormals_wf", "flatNormals_wf", "laplacian_wf", "filterAttrOld_breaks_triangles"],
     streams=[dict(name="c02", n=dict(quick=400, thorough=12000))],
